@@ -212,7 +212,7 @@ def rich_pairs(ctx, n, sets=True, keys=None):
     return out
 
 
-HOSTILE_KEYS = ['a', 'b', '', 'root', 'x y', "it's", 'say "x"', 'C:\\tmp\\n', 'a\nb', 'tab\there', 'a.b', 'a[0]', "a']['b", 'é', '_p', 'old_value', 'new_path', '0', '1.5',
+HOSTILE_KEYS = ['a', 'b', '', 'root', 'x y', 'user__id', 'a__', '_x__y', "it's", 'say "x"', 'C:\\tmp\\n', 'a\nb', 'tab\there', 'a.b', 'a[0]', "a']['b", 'é', '_p', 'old_value', 'new_path', '0', '1.5',
                 b'x', b'ab c', b"it's", b'', 0, 2, -3, 10 ** 20, 2.5, 0.0, None, (1, 2), (0, (1.5, None)), ()]      # tuple keys without strings (F57)
 
 
